@@ -53,6 +53,51 @@ def axis(spec):
     return c04.axis_arg(spec)
 
 
+def pruned_then_other_column(chk, seed):
+    """provenance: a packed dataset with two geometry columns, re-read with bounds= (partitions pruned), then queried through the
+    OTHER geometry column (set_geometry / column selection): answers equal pandas on the computed frame"""
+    import dask
+    import dask.dataframe as dd
+    import numpy as np
+    from spatialpandas.io import read_parquet_dask
+    from . import packfs
+    tmp2 = tempfile.mkdtemp(prefix="c06p-", dir=os.environ.get("TMPDIR") or "/var/tmp")
+    try:
+        with dask.config.set(scheduler="synchronous"):
+            df, _ = packfs.make_frame(30, seed + 3)
+            path = os.path.join(tmp2, "two.parq")
+            dd.from_pandas(df, npartitions=3).pack_partitions_to_parquet(path, npartitions=5, p=8, _retry_args=packfs.RETRY)
+            full = read_parquet_dask(path).compute()
+            tbp = full["geometry"].array.total_bounds
+            box = (float(tbp[0]), float(tbp[1]), float(tbp[0] + (tbp[2] - tbp[0]) / 3), float(tbp[3]))
+            for g in (None, "geometry", "other"):
+                fr = read_parquet_dask(path, geometry=g, bounds=box)
+                pdf = fr.compute()
+                chk.count()
+                for oc in ("other", "geometry"):
+                    for how, derive in (("set_geometry", lambda f_, c_: f_.set_geometry(c_)), ("column", lambda f_, c_: f_[c_])):
+                        d2 = derive(fr, oc)
+                        p2 = derive(pdf, oc)
+                        ser = d2.geometry if hasattr(d2, "geometry") and not hasattr(d2, "total_bounds") else d2
+                        pser = p2.geometry if hasattr(p2, "geometry") and not hasattr(p2, "array") else p2
+                        try:
+                            tbd = [float(v) for v in ser.total_bounds]
+                            tbw = [float(v) for v in pser.array.total_bounds]
+                            q = (tbw[0], tbw[2], tbw[1], tbw[3]) if not any(np.isnan(tbw)) else (0.0, 1.0, 0.0, 1.0)
+                            gotq = sorted(int(i) for i in d2.cx[q[0]:(q[0] + q[1]) / 2, q[2]:q[3]].compute().index) if how != "column" else None
+                            wantq = sorted(int(i) for i in p2.cx[q[0]:(q[0] + q[1]) / 2, q[2]:q[3]].index) if how != "column" else None
+                        except Exception as ex:  # noqa: BLE001
+                            chk.violation(f"pruned-other|raises|{how}", f"read_parquet_dask(geometry={g!r}, bounds=box) ; {how}({oc!r}) ; total_bounds / cx raises {type(ex).__name__}: {ex}",
+                                          "", ctx=dict(site="dask.provenance", mode="pruned-other-raises"))
+                            return
+                        if not all((np.isnan(a) and np.isnan(b)) or a == b for a, b in zip(tbd, tbw)) or gotq != wantq:
+                            chk.violation(f"pruned-other|{how}", f"read_parquet_dask(geometry={g!r}, bounds=box) ; {how}({oc!r}): total_bounds {tbd} / cx rows {gotq}, pandas on the computed "
+                                          f"frame says {tbw} / {wantq}", "", ctx=dict(site="dask.provenance", mode="pruned-other"))
+                            return
+    finally:
+        shutil.rmtree(tmp2, ignore_errors=True)
+
+
 def run(tier: str, seed: int) -> int:
     import dask
     import spatialpandas as sp
@@ -257,6 +302,7 @@ def run(tier: str, seed: int) -> int:
     finally:
         shutil.rmtree(tmp, ignore_errors=True)
     # cross-feature histories (World.tla, TLC -simulate) - provenances pack_partitions / parquet / compute / filter chains
+    pruned_then_other_column(chk, seed)
     from . import world
     world.stage(chk, quick, seed)            # spec -> code: TLC-simulated behaviours of World replayed on real objects
     world.drive_stage(chk, quick, seed)      # code -> spec: random driver histories judged by Trace_World
